@@ -143,6 +143,15 @@ func runC01(r *hk.Run) {
 	// (d) connection-level events: the retry must carry the body
 	runEventCells(r, rng.Fork())
 
+	// (k) HTTP/2: locally refused over-limit requests between requests that share HPACK state
+	runHpackCells(r, rng.Fork())
+
+	// (j) body sources that fail part-way
+	runFaultCells(r, rng.Fork())
+
+	// (i) one Request executed several times (retries, re-sending): every execution is the described request
+	runAttemptCells(r, rng.Fork())
+
 	// (h) concurrent requests of one client, each with a unique tag in every part
 	runConcurrentCells(r, rng.Fork())
 
